@@ -393,10 +393,12 @@ class Ctx:
 
 
 def load_known():
-    p = os.path.join(VERIF, "known_findings.json")
-    if not os.path.exists(p):
-        return []
-    return json.load(open(p))
+    """Entries of known_findings.d/C*.json (the committed per-property files; known_findings.json is
+    their merged copy).  Never written at run time."""
+    out = []
+    for p in sorted(glob.glob(os.path.join(VERIF, "known_findings.d", "C*.json"))):
+        out += json.load(open(p))
+    return out
 
 
 def write_replay(ctx, payload: dict) -> str:
